@@ -203,7 +203,13 @@ impl<'a> LGen<'a> {
         self.t("{");
         match self.rng.below(6) {
             0 => {}
-            1 => self.ty(d),
+            1 => {
+                if self.rng.chance(1, 4) {
+                    let m = self.rng.pick_s(&["read", "write"]);
+                    self.t(m);
+                }
+                self.ty(d)
+            }
             2 => {
                 self.t("[");
                 self.operand_type();
